@@ -621,6 +621,11 @@ func (vc *VC) namesAt(b *ssa.BasicBlock) map[string]ssa.Value {
 				if x.Comment != "" && blk != b {
 					out[x.Comment] = x
 				}
+			case *ssa.Phi:
+				// a variable merged in a dominating block (assigned in one branch of an if before the loop)
+				if x.Comment != "" && blk != b && x.Comment != "rangeindex" {
+					out[x.Comment] = x
+				}
 			}
 		}
 	}
